@@ -162,6 +162,143 @@ func (p *Prog) FindCalls(fn *ssa.Function, pattern string) []ssa.CallInstruction
 	return out
 }
 
+// CtxCall is a call found in fn itself or in a transparent helper it calls (rendered with the
+// helper's parameters bound to fn's arguments).
+type CtxCall struct {
+	X    fctx
+	Call ssa.CallInstruction
+	Str  string
+	// Chain: the call sites leading from fn down to the function that contains Call
+	// (empty when Call is in fn itself); Chain[0] is an instruction of fn.
+	Chain []ssa.CallInstruction
+}
+
+// Site0 is the instruction of the searched function itself through which the call happens.
+func (cc CtxCall) Site0() ssa.Instruction {
+	if len(cc.Chain) > 0 {
+		return cc.Chain[0]
+	}
+	return cc.Call
+}
+
+// FindCallsDeep: like FindCalls, also looking into the transparent helpers fn calls (two levels),
+// so that moving a call into a private helper does not hide it.
+func (p *Prog) FindCallsDeep(fn *ssa.Function, pattern string) []CtxCall {
+	re := regexp.MustCompile(pattern)
+	var out []CtxCall
+	var walk func(x fctx, depth int, seen map[*ssa.Function]bool, chain []ssa.CallInstruction)
+	walk = func(x fctx, depth int, seen map[*ssa.Function]bool, chain []ssa.CallInstruction) {
+		for _, ci := range callsIn(x.fn) {
+			s := ""
+			if c, ok := ci.(*ssa.Call); ok {
+				s = x.r.E(c)
+			} else {
+				s = x.r.call(ci.Common())
+			}
+			if re.MatchString(s) {
+				out = append(out, CtxCall{X: x, Call: ci, Str: s, Chain: append([]ssa.CallInstruction(nil), chain...)})
+			}
+			g := ci.Common().StaticCallee()
+			if depth <= 0 || g == nil || seen[g] || !p.transparentHelper(g) {
+				continue
+			}
+			bind := make([]string, len(ci.Common().Args))
+			for i, a := range ci.Common().Args {
+				bind[i] = x.r.E(a)
+			}
+			seen[g] = true
+			walk(fctx{fn: g, r: p.RBound(g, bind, 1), call: ci, parent: x.fn}, depth-1, seen, append(chain, ci))
+			delete(seen, g)
+		}
+	}
+	walk(fctx{fn: fn, r: p.R(fn)}, 2, map[*ssa.Function]bool{fn: true}, nil)
+	return out
+}
+
+// MatchEdgesDeep: edges whose fact matches re in fn or in the transparent helpers it calls (two
+// levels), the helpers' facts rendered in fn's terms.
+func (p *Prog) MatchEdgesDeep(fn *ssa.Function, re *regexp.Regexp) []EdgeFact {
+	var out []EdgeFact
+	var walk func(x fctx, depth int, seen map[*ssa.Function]bool)
+	walk = func(x fctx, depth int, seen map[*ssa.Function]bool) {
+		for _, ef := range p.edgeFactsWith(x.fn, x.r) {
+			if ef.Fact != infeasible && re.MatchString(ef.Fact) {
+				out = append(out, ef)
+			}
+		}
+		if depth <= 0 {
+			return
+		}
+		for _, ci := range callsIn(x.fn) {
+			g := ci.Common().StaticCallee()
+			if g == nil || seen[g] || !p.transparentHelper(g) {
+				continue
+			}
+			bind := make([]string, len(ci.Common().Args))
+			for i, a := range ci.Common().Args {
+				bind[i] = x.r.E(a)
+			}
+			seen[g] = true
+			walk(fctx{fn: g, r: p.RBound(g, bind, 1), call: ci, parent: x.fn}, depth-1, seen)
+			delete(seen, g)
+		}
+	}
+	walk(fctx{fn: fn, r: p.R(fn)}, 2, map[*ssa.Function]bool{fn: true})
+	return out
+}
+
+// deepIterationCanSkip: cc was found in fn or in a transparent helper. At the level where the
+// site sits inside a loop, can an iteration complete without executing it? At helper levels
+// where it is not in a loop, can the helper succeed without executing it?
+func (p *Prog) deepIterationCanSkip(fn *ssa.Function, cc CtxCall) (bool, []*ssa.BasicBlock) {
+	type level struct {
+		fn   *ssa.Function
+		site ssa.Instruction
+	}
+	var levels []level
+	cur := fn
+	for _, c := range cc.Chain {
+		levels = append(levels, level{cur, c})
+		cur = c.Common().StaticCallee()
+	}
+	levels = append(levels, level{cur, cc.Call})
+	for k, l := range levels {
+		if inLoop(l.site.Block()) {
+			if skip, path := loopIterationCanSkip(l.fn, l.site); skip {
+				return true, path
+			}
+			continue
+		}
+		if k > 0 {
+			site := l.site
+			if t, path := (&PathSearch{Fn: l.fn, AvoidInstr: func(in ssa.Instruction) bool { return in == site }, IsTarget: successTargets(l.fn)}).Find(); t != nil {
+				return true, path
+			}
+		}
+	}
+	return false, nil
+}
+
+func inLoop(b *ssa.BasicBlock) bool {
+	seen := map[*ssa.BasicBlock]bool{}
+	var walk func(x *ssa.BasicBlock) bool
+	walk = func(x *ssa.BasicBlock) bool {
+		for _, s := range x.Succs {
+			if s == b {
+				return true
+			}
+			if !seen[s] {
+				seen[s] = true
+				if walk(s) {
+					return true
+				}
+			}
+		}
+		return false
+	}
+	return walk(b)
+}
+
 // StoreSite is one collections access in a function.
 type StoreSite struct {
 	Fn     *ssa.Function
@@ -293,7 +430,7 @@ func (p *Prog) helperContexts(fn *ssa.Function) []fctx {
 		if g == nil || g.Blocks == nil || g.Parent() != nil || seen[g] || !isProdPkgFn(g) {
 			continue
 		}
-		if o, ok := g.Object().(*types.Func); !ok || o.Exported() {
+		if !p.transparentHelper(g) {
 			continue
 		}
 		seen[g] = true
@@ -303,6 +440,54 @@ func (p *Prog) helperContexts(fn *ssa.Function) []fctx {
 			bind[i] = r.E(a)
 		}
 		out = append(out, fctx{fn: g, r: p.RBound(g, bind, 1), call: ci, parent: fn})
+	}
+	return out
+}
+
+// transparentHelper: a repository function the rules do not anchor on — unexported, or exported
+// but introduced after the rules were written (not in knownAPI) — and that is not a closure,
+// generated code or an entry point. Rules look through such helpers in both directions.
+func (p *Prog) transparentHelper(g *ssa.Function) bool {
+	if g == nil || g.Blocks == nil || g.Parent() != nil || !isProdPkgFn(g) || p.isGenerated(g) {
+		return false
+	}
+	o, ok := g.Object().(*types.Func)
+	if !ok {
+		return false
+	}
+	return !(o.Exported() && knownAPI[FuncKey(g)])
+}
+
+// contextsOf: the contexts in which the body of fn runs. For a transparent helper these are its
+// static call sites in production code, each with the helper's parameters bound to the caller's
+// arguments (callers that are helpers themselves are resolved one level further); for any other
+// function, the function itself.
+func (p *Prog) contextsOf(fn *ssa.Function) []fctx {
+	return p.contextsOfDepth(fn, 2)
+}
+
+func (p *Prog) contextsOfDepth(fn *ssa.Function, depth int) []fctx {
+	self := []fctx{{fn: fn, r: p.R(fn)}}
+	if depth <= 0 || !p.transparentHelper(fn) {
+		return self
+	}
+	var out []fctx
+	for _, e := range p.CG().In[fn] {
+		ci, ok := e.Site.(ssa.CallInstruction)
+		if !ok || !isProdPkgFn(e.From) || e.From == fn || ci.Common().StaticCallee() != fn {
+			continue
+		}
+		for _, pc := range p.contextsOfDepth(e.From, depth-1) {
+			bind := make([]string, len(ci.Common().Args))
+			for i, a := range ci.Common().Args {
+				bind[i] = pc.r.E(a)
+			}
+			x := fctx{fn: fn, r: p.RBound(fn, bind, 1), call: ci, parent: e.From}
+			out = append(out, x)
+		}
+	}
+	if len(out) == 0 {
+		return self
 	}
 	return out
 }
